@@ -164,12 +164,14 @@ def generate(rng, tier):
                      pdesc=glistdesc(rng, nc), desc=gdesc(rng))
             c['fmt'] = rng.choice(['hdf5', 'pkl'])
         elif kind == 'result':
-            c.update(routine=rng.choice(['fixed', 'bootstrap_rdm', 'bootstrap_pattern', 'bootstrap', 'crossval', 'direct']),
+            c.update(routine=rng.choice(['fixed', 'bootstrap_rdm', 'bootstrap_pattern', 'bootstrap', 'crossval', 'direct',
+                                         'bootcv_pattern', 'bootcv_rdm', 'bootcv_both', 'bootcv_pattern', 'bootcv_rdm']),
                      n_rdm=rng.randint(3, 8), n_cond=rng.randint(4, 6), n_model=rng.randint(1, 3), N=rng.randint(4, 7))
             if c['routine'] == 'direct' and rng.random() < 0.5:
                 c['n_model'] = rng.choice([11, 12])      # HDF5 lists group members alphabetically: model_10 before model_2
         else:
-            c.update(ops=[(rng.randrange(3), rng.randrange(5), rng.random() < 0.4) for _ in range(rng.randint(2, 7))])
+            c.update(ops=[(rng.randrange(3), rng.randrange(5), rng.random() < 0.4) for _ in range(rng.randint(2, 7))],
+                     pathkind=rng.choice(['str', 'str', 'Path']))
         out.append(c)
     return out
 
@@ -291,6 +293,10 @@ def build_result(c):
     if rt == 'crossval':
         tr, te, ce = I.sets_k_fold(D, k_pattern=1, k_rdm=2, random=False)
         return I.crossval(models, D, tr, te, ce)
+    if rt.startswith('bootcv'):
+        # bootstrap-cross-validation resampling one factor only (seeded change C16-m7: counts attached after construction)
+        fixed = [M.ModelFixed(f'f{i}', rs.randint(1, 40, size=P) / 8.0) for i in range(c['n_model'])]
+        return I.bootstrap_crossval(fixed, D, N=c['N'], k_pattern=1, k_rdm=2, n_cv=2, boot_type=rt.split('_')[1])
     ev = rs.randint(-8, 24, size=(c['N'], c['n_model'])) / 8.0
     ev[0] = np.nan
     A = rs.randn(c['n_model'] + 2, c['n_model'] + 3)
@@ -457,10 +463,14 @@ def run(c):
             refused = []
             for p, cid, ow in c['ops']:
                 r = RDMs(np.arange(3.0)[None] + cid, descriptors={'content': cid})
+                fn = os.path.join(tmp, f'p{p}.h5')
+                if c.get('pathkind') == 'Path':      # a pathlib.Path instead of a string (seeded change C16-m8)
+                    import pathlib
+                    fn = pathlib.Path(fn)
                 try:
-                    r.save(os.path.join(tmp, f'p{p}.h5'), file_type='hdf5', overwrite=ow)
+                    r.save(fn, file_type='hdf5', overwrite=ow)
                     refused.append(False)
-                except ValueError as e:
+                except (ValueError, OSError, RuntimeError) as e:
                     refused.append(True)
             final = []
             for p in range(3):
